@@ -144,6 +144,9 @@ def model_check(prop, names, scratch, verdict, timeout):
     return tot
 
 
+EXTRAS = {}     # property -> callable(verdict, tier, seed, scratch) -> coverage dict (oracle halves, see registry)
+
+
 def run(prop, tier, seed):
     spec = PROPS[prop]
     t = checklib.Timer()
@@ -207,8 +210,19 @@ def run(prop, tier, seed):
         if any(c is None for c in cres):
             verdict.machinery.append("TraceCore gave no result for some traces: " +
                                      (cst["errors"][0][-600:] if cst["errors"] else ""))
+        extra_cov = {}
+        if prop in EXTRAS:
+            try:
+                extra_cov = EXTRAS[prop](verdict, tier, seed, scratch) or {}
+            except Exception as e:       # never a verdict
+                import traceback
+                verdict.machinery.append("extra part of %s failed: %r %s" % (prop, e, traceback.format_exc()[-600:]))
+        mc["states"] += int(extra_cov.get("states", 0))
+        mc["transitions"] += int(extra_cov.get("transitions", 0))
         cov = {"states": mc["states"], "transitions": mc["transitions"], "mc_configs": mc["configs"],
-               "traces_validated_against_impl": len([r for r in runs if r.get("verdict")]) + len(ctr),
+               "second_module": extra_cov,
+               "traces_validated_against_impl": len([r for r in runs if r.get("verdict")]) + len(ctr)
+               + int(extra_cov.get("traces_validated_against_impl", 0)),
                "monitor_traces": len(runs), "monitor_lines": st["lines"], "monitor_states": st["states"],
                "conformance_traces": len(ctr), "conformance_full": conf_ok,
                "conformance_divergences": divergences[:20], "conformance_states": cst["states"],
